@@ -459,9 +459,25 @@ def run(R):
     #      the map and nothing overwrites it afterwards (with the same table on both sides the qualified names of the two sides coincide)
     R.rule("C05.qualified", "in the pair's column mapping the joined table's qualified name is bound to the joined value unconditionally, "
                             "after the queried row's mapping was built, and no later insert / extend can replace it")
+    def deep_fields(op):
+        """field names on the provenance of a key, followed through iterator plumbing (iter / zip / enumerate / next / as_str)"""
+        out, work, seen_c = set(), [op], set()
+        while work and len(seen_c) < 60:
+            cur = work.pop()
+            if cur.get("k") not in ("copy", "move"):
+                continue
+            vis = []
+            for o in F.origins(cm, cur, depth=12, visit=vis.append):
+                if o.kind == "call" and id(o.call) not in seen_c:
+                    seen_c.add(id(o.call))
+                    if re.search(r"Iterator::(zip|enumerate|map|by_ref|peekable)$|::iter$|Iterator>::next$|::as_str$|Deref>::deref$|IntoIterator>::into_iter$|Index<.*>>::index$",
+                                 short(o.call.name)):
+                        work.extend(o.call.args)
+            for pl in vis:
+                out |= set(place_fields(pl))
+        return out
     qins = [c for c in cm.calls if re.search(r"hash::map::HashMap::insert$", short(c.name)) and len(c.args) > 1 and
-            "fully_qualified_column_names" in F.source_fields(cm, c.args[1], depth=10) + [x for o in F.origins(cm, c.args[1], depth=10)
-                                                                                         if o.kind == "call" and o.call.args for x in F.source_fields(cm, o.call.args[0], depth=8)]]
+            "fully_qualified_column_names" in deep_fields(c.args[1])]
     ccm = [c for c in cm.calls if short(c.name).endswith("ExecutionEngine::create_columns_mapping")]
     if not qins:
         R.violation("C05.qualified", "create_joined_column_mapping|no-qualified", "the joined row's values are no longer bound to the joined "
